@@ -545,7 +545,10 @@ def get_error_page(status, **kwargs):
             m = kwargs['message']
             if m:
                 m += '<br />'
-            m += 'In addition, the custom error page failed:\n<br />%s' % e
+            # The exception text is data, not markup: escape it like every
+            # other value shown in the page.
+            m += ('In addition, the custom error page failed:\n<br />%s'
+                  % html.escape(e, quote=False))
             kwargs['message'] = m
 
     response = cherrypy.serving.response
